@@ -1,0 +1,189 @@
+// Verification hooks (compiled only with -DMULTITENSOR_VERIF).
+//
+// Observer interface with no-op defaults, a process-wide observer pointer, and a
+// built-in observer that writes the events to the file named by the environment
+// variable MULTITENSOR_VERIF_TRACE (used to observe the command line binary).
+// With the guard off this header is empty.
+
+#pragma once
+
+#ifdef MULTITENSOR_VERIF
+
+#include <cstddef>
+#include <cstdint>
+#include <cstdio>
+#include <cstdlib>
+#include <cstring>
+#include <sstream>
+#include <string>
+#include <vector>
+
+#include "multitensor/tensor.hpp"
+
+namespace multitensor
+{
+namespace verif
+{
+
+//! Description of one call of multitensor_factorization
+struct CallInfo
+{
+    bool directed;
+    bool assortative;
+    bool init_random;    // init_symmetric_tensor_random
+    bool init_from_file; // init_symmetric_tensor_from_initial<affinity_t>
+    bool weight_integral;
+    size_t nof_groups, nof_layers, nof_vertices;
+    size_t nof_realizations, max_nof_iterations, nof_convergences;
+    long long seed;
+    std::vector<std::string> edges_start, edges_end;
+    std::vector<double> edges_weight;
+    std::vector<double> affinity;
+};
+
+struct Observer
+{
+    virtual ~Observer() {}
+    virtual void call_start(const CallInfo &) {}
+    virtual void realization_start(size_t /*r*/,
+                                   const tensor::Matrix<double> & /*u*/,
+                                   const tensor::Matrix<double> & /*v*/,
+                                   const std::vector<double> & /*w*/) {}
+    //! May overwrite L2 (scripted-likelihood mode)
+    virtual void likelihood_computed(size_t /*iteration*/, double & /*L2*/) {}
+    virtual void iteration_end(size_t /*r*/, size_t /*iteration*/,
+                               const tensor::Matrix<double> & /*u*/,
+                               const tensor::Matrix<double> & /*v*/,
+                               const std::vector<double> & /*w*/,
+                               double /*L2*/, size_t /*coincide*/, int /*reason*/) {}
+    virtual void realization_end(size_t /*r*/, double /*L2*/, bool /*adopted*/) {}
+};
+
+inline std::string hex_of_double(double x)
+{
+    std::uint64_t b;
+    std::memcpy(&b, &x, sizeof b);
+    char buf[32];
+    std::snprintf(buf, sizeof buf, "x%016llx", (unsigned long long)b);
+    return buf;
+}
+
+//! Built-in observer writing events to a file
+struct FileObserver : Observer
+{
+    std::FILE *f;
+    explicit FileObserver(const char *path) : f(std::fopen(path, "w")) {}
+    ~FileObserver() override
+    {
+        if (f)
+            std::fclose(f);
+    }
+    void vec(const std::vector<double> &v)
+    {
+        std::fprintf(f, " %zu", v.size());
+        for (double x : v)
+            std::fprintf(f, " %s", hex_of_double(x).c_str());
+    }
+    void call_start(const CallInfo &c) override
+    {
+        if (!f)
+            return;
+        std::fprintf(f, "call_start dir=%d assort=%d initrandom=%d initfile=%d wint=%d K=%zu L=%zu N=%zu r=%zu maxit=%zu nconv=%zu seed=%lld\n",
+                     (int)c.directed, (int)c.assortative, (int)c.init_random, (int)c.init_from_file,
+                     (int)c.weight_integral,
+                     c.nof_groups, c.nof_layers, c.nof_vertices, c.nof_realizations,
+                     c.max_nof_iterations, c.nof_convergences, c.seed);
+        std::fprintf(f, "records %zu", c.edges_start.size());
+        for (size_t i = 0; i < c.edges_start.size(); i++)
+        {
+            std::fprintf(f, " %s %s", c.edges_start[i].c_str(),
+                         i < c.edges_end.size() ? c.edges_end[i].c_str() : "?");
+        }
+        std::fprintf(f, "\nweights");
+        vec(c.edges_weight);
+        std::fprintf(f, "\naffinity");
+        vec(c.affinity);
+        std::fprintf(f, "\n");
+        std::fflush(f);
+    }
+    void realization_start(size_t r, const tensor::Matrix<double> &u,
+                           const tensor::Matrix<double> &v,
+                           const std::vector<double> &w) override
+    {
+        if (!f)
+            return;
+        std::fprintf(f, "realization_start %zu u", r);
+        vec(u.get_data());
+        std::fprintf(f, " v");
+        vec(v.get_data());
+        std::fprintf(f, " w");
+        vec(w);
+        std::fprintf(f, "\n");
+    }
+    void likelihood_computed(size_t iteration, double &L2) override
+    {
+        if (!f)
+            return;
+        std::fprintf(f, "likelihood_computed %zu %s\n", iteration, hex_of_double(L2).c_str());
+    }
+    void iteration_end(size_t r, size_t iteration, const tensor::Matrix<double> &,
+                       const tensor::Matrix<double> &, const std::vector<double> &,
+                       double L2, size_t coincide, int reason) override
+    {
+        if (!f)
+            return;
+        std::fprintf(f, "iteration_end %zu %zu %s %zu %d\n", r, iteration,
+                     hex_of_double(L2).c_str(), coincide, reason);
+    }
+    void realization_end(size_t r, double L2, bool adopted) override
+    {
+        if (!f)
+            return;
+        std::fprintf(f, "realization_end %zu %s %d\n", r, hex_of_double(L2).c_str(), (int)adopted);
+        std::fflush(f);
+    }
+};
+
+inline Observer *&observer_slot()
+{
+    static Observer *slot = nullptr;
+    return slot;
+}
+
+//! Current observer; installs the file observer on first use if requested by the environment
+inline Observer *observer()
+{
+    static bool env_checked = false;
+    if (!observer_slot() && !env_checked)
+    {
+        env_checked = true;
+        const char *path = std::getenv("MULTITENSOR_VERIF_TRACE");
+        if (path && *path)
+        {
+            static FileObserver file_observer(path);
+            observer_slot() = &file_observer;
+        }
+    }
+    return observer_slot();
+}
+
+inline void set_observer(Observer *o)
+{
+    observer_slot() = o;
+}
+
+template <class T>
+std::string to_label_string(const T &x)
+{
+    std::ostringstream os;
+    os << x;
+    return os.str();
+}
+
+//! Defined by the verification harness: access to the private parts of the solver
+struct Access;
+
+} // namespace verif
+} // namespace multitensor
+
+#endif // MULTITENSOR_VERIF
